@@ -192,6 +192,11 @@ func raceSignature(rep string) (sig string, inTwig bool) {
 					}
 					break
 				}
+				if strings.HasPrefix(f, "simrt.") && simrtActsForCaller(f) {
+					// a map-iteration seam reads the PROGRAM's map on behalf of the range statement it
+					// replaced: the access belongs to the caller's frame
+					continue
+				}
 				if strings.HasPrefix(f, "simrt.") {
 					fn = "simulator:" + f
 					simrtOwned = true
@@ -216,6 +221,17 @@ func raceSignature(rep string) (sig string, inTwig bool) {
 }
 
 var harnessRace bool
+
+// simrtActsForCaller: seam functions whose only memory accesses visible to the race detector are to
+// the caller's own data (the simulator's state is touched from //go:norace code only).
+func simrtActsForCaller(f string) bool {
+	for _, p := range []string{"simrt.Keys[", "simrt.MapKeys", "simrt.MapRange", "simrt.(*MapIter)", "simrt.MapsKeys", "simrt.MapsValues", "simrt.MapsAll", "simrt.SyncMapRange", "simrt.sortKeys", "simrt.canonValue"} {
+		if strings.HasPrefix(f, p) {
+			return true
+		}
+	}
+	return false
+}
 
 func trimArgs(f string) string {
 	// "pkg.(*T).Method(0x..., ...)" or "pkg.Func(...)" or "pkg.Func.func1()"
